@@ -116,6 +116,21 @@ def run(case):
         full = load('all', False, 'fields=all')
         if full is None:
             return out
+        if knobs.get('prelude_seed') is not None:
+            # "depend only on the catalog files and the unit option": the same load in a process without history
+            try:
+                fresh = C.fresh_process_columns(gd, cleaned=case['cleaned'] or bool(world.get('lc')), subsamples=False, fields='all',
+                                                convert_units=case['convert_units'])
+            except RuntimeError as e:
+                out['harness'] = str(e)
+                return out
+            mine = C.column_digests(full)
+            bump(out['faults'], 'fresh-process-reference')
+            for c in sorted(set(mine) | set(fresh)):
+                if mine.get(c) != fresh.get(c):
+                    violation(out, 'column-depends-on-process-history', 'halos[%s]' % _family(c),
+                              {'column': c, 'history': 'another catalogue (same BoxSize, other VelZSpace_to_kms) loaded before'})
+                    return out
         default = load('DEFAULT_FIELDS', False, 'fields=default')
         if default is None:
             return out
